@@ -368,9 +368,15 @@ func TestVerifC16(t *testing.T) {
 	r.SetDeadline(map[bool]time.Duration{false: 120 * time.Second, true: 35 * time.Minute}[r.Thorough()])
 	per := map[string]interface{}{}
 	completed := 0
+	if !r.Thorough() {
+		bounds = []int{1, 2} // quick: bound 1 on every scenario, bound 2 on the two smallest ones
+	}
 	for _, bound := range bounds {
 		allComplete := true
-		for _, sc := range scens {
+		for si, sc := range scens {
+			if !r.Thorough() && bound == 2 && si > 1 {
+				continue
+			}
 			c := sc
 			c.Bound = bound
 			env := newC16Env(c.Cap)
@@ -417,16 +423,23 @@ func TestVerifC16(t *testing.T) {
 			}
 			env.close()
 		}
-		if allComplete {
+		if allComplete && (r.Thorough() || bound == 1) {
 			completed = bound
-		} else if bound == bounds[0] {
+		} else if !allComplete && bound == bounds[0] {
 			r.MarkCapped()
 		}
 	}
 	r.Extra["completed_preemption_bound"] = completed
+	if !r.Thorough() {
+		r.Extra["bound_2_scenarios_in_quick"] = 2
+	}
 	r.Extra["shard"] = fmt.Sprintf("%d/%d", shard, nshards)
 	r.Extra["scenarios"] = per
-	c16Describe(r, bounds[0], bounds[len(bounds)-1])
+	if r.Thorough() {
+		c16Describe(r, bounds[0], bounds[len(bounds)-1])
+	} else {
+		c16Describe(r, 1, 2)
+	}
 	finish(t, r)
 }
 
